@@ -5,3 +5,5 @@ go 1.23
 require github.com/pbenner/autodiff v0.0.0
 
 replace github.com/pbenner/autodiff => /repo
+
+require github.com/pbenner/threadpool v0.0.0-20191122191339-0302c226b91e // indirect
